@@ -88,8 +88,24 @@ func window(s []byte, exact ...bool) []byte {
 	return buf[:len(s)]
 }
 
-func checkC13(c C13Case, o *Obs) error {
+// windowIntact verifies that the bytes behind a window made by window() were not written.
+func windowIntact(w []byte) error {
+	if cap(w) == len(w) {
+		return nil
+	}
+	if tail := w[len(w):cap(w)]; string(tail) != "ACGTACGTACGT" {
+		return fmt.Errorf("the caller's memory behind the input slice (its spare capacity, which holds the caller's next bases) was written: %q became %q (input %q)", "ACGTACGTACGT", tail, w)
+	}
+	return nil
+}
+
+func checkC13(c C13Case, o *Obs) (err error) {
 	data := window(c.Data, (len(c.Data)+len(c.Dst)+c.Spare)%2 == 0)
+	defer func() {
+		if err == nil {
+			err = windowIntact(data)
+		}
+	}()
 	dataCopy := bytes.Clone(data)
 	o.Class("kind:" + c.Kind)
 	o.ClassIf(len(c.Dst) > 0, "non-empty dst")
